@@ -38,7 +38,7 @@ func c10(r *Report) propMeta {
 		r.Gate("attempt-bound", inr, CallEff(e), []Cond{bound}, GateOpts{FailIsError: true})
 	}
 	r.Dominated("increment-before-bound-check", inr, StoreEff("Signing.CurrentAttempt", "binop:+"), CallEff("Keeper.AssignMembersForSigning"))
-	r.ArgHas("expiry-height", inr, "types.NewSigningAttempt", 2, 1, "^binop:+", "call:Context.BlockHeight", "field:Params.SigningPeriod")
+	r.ArgHas("expiry-height", inr, "types.NewSigningAttempt", 2, 1, "^binop:+", "binops=+", "call:Context.BlockHeight", "field:Params.SigningPeriod")
 	r.ArgHas("attempt-number", inr, "types.NewSigningAttempt", 1, 1, "field:Signing.CurrentAttempt")
 	r.ArgHas("attempt-members", inr, "types.NewSigningAttempt", 3, 1, "call:Keeper.AssignMembersForSigning")
 	r.ArgHas("expiration-entry", inr, "Keeper.AddSigningExpiration", 2, 1, "field:Signing.CurrentAttempt")
